@@ -119,7 +119,6 @@ def job_int_data(T, Fc, asc, bound, smear):
     return recs
 
 
-REPLAYS = {'add_signal': inject.replay_add_signal, 'superpose': replay_superpose, 'int_data': replay_int_data}
 
 
 def configs(T, Fc, asc, smear, tier, geom):
@@ -243,6 +242,141 @@ def job_confine(T, Fc, asc, smear, tier, geom):
     return recs
 
 
+# ---------------------------------------------------------------- injections that fail
+FAULTS = ('path_fn', 'tprofile_fn', 'fprofile_fn', 'bp_fn', 'path_len', 'path_type', 'tprofile_len', 'bp_len')
+
+
+class UserError(Exception):
+    pass
+
+
+def failing_kwargs(fault, T, Fc, smear, mk_arr):
+    """signal description whose evaluation fails at the named component"""
+    def boom(*a):
+        raise UserError(fault)
+    ok_p, ok_t, ok_f, ok_b = uf1('PATH'), uf1('TP'), uf2('FP'), uf1('BP')
+    kw = dict(path=ok_p, t_profile=ok_t, f_profile=ok_f, bp_profile=ok_b, doppler_smearing=smear, smearing_subsamples=2)
+    if fault == 'path_fn':
+        kw['path'] = boom
+    elif fault == 'tprofile_fn':
+        kw['t_profile'] = boom
+    elif fault == 'fprofile_fn':
+        kw['f_profile'] = boom
+    elif fault == 'bp_fn':
+        kw['bp_profile'] = boom
+    elif fault == 'path_len':
+        kw['path'] = mk_arr(T if smear else T + 1)          # one too few / one too many values
+    elif fault == 'path_type':
+        kw['path'] = 'not a path'
+    elif fault == 'tprofile_len':
+        kw['t_profile'] = mk_arr(T + 1)
+    elif fault == 'bp_len':
+        kw['bp_profile'] = mk_arr(Fc + 1)
+    return kw
+
+
+def job_failed_injection(T, Fc, asc, smear, fault):
+    """an injection that raises (a failing user callback, an array of the wrong length, an unsupported type) leaves the
+    frame exactly as it was, and the frame still takes a later injection"""
+    recs = []
+    tag = f"C06:failed:{(T, Fc, asc, smear, fault)}"
+    df, dt, fch1, pre = geom_syms()
+    D = sym_data(T, Fc)
+    mk_arr = lambda n: npx.sarr([Sym(z3.Real(f'arr_{i}')) for i in range(n)])
+    pl = dict(fn='failed', T=T, Fc=Fc, asc=asc, smear=smear, fault=fault)
+
+    def run():
+        fr = make_frame(T, Fc, asc, df, dt, fch1)
+        fr.data = D.copy()
+        before = dict(fs=list(fr.fs), ts=list(fr.ts), shape=fr.shape, noise=(fr.noise_mean, fr.noise_std), meta=dict(fr.metadata), rng=fr.rng,
+                      rng_state=str(fr.rng.bit_generator.state), fmin=fr.fmin, fmax=fr.fmax, df=fr.df, dt=fr.dt)
+        raised = None
+        try:
+            fr.add_signal(**failing_kwargs(fault, T, Fc, smear, mk_arr))
+        except (UserError, ValueError, TypeError, IndexError) as e:
+            raised = e
+        ext = fr.ts_ext
+        dis_state, bad_state = state_equal(before, fr, None)          # judged now, before anything else touches the frame
+        data_after = fr.data.copy()
+        later = None
+        try:
+            later = fr.add_signal(uf1('PATH'), uf1('TP'), uf2('FP'), uf1('BP'), doppler_smearing=smear, smearing_subsamples=2)
+        except Exception as e:
+            later = e
+        return (dis_state, bad_state, data_after), before, raised, ext, later
+    with frame_patches():
+        leaves = core.explore(run, pre, cap=200)
+    conds = []
+    for li, leaf in enumerate(leaves):
+        conds.append(leaf.cond())
+        name = f"{tag}:leaf{li}"
+        base = pre + leaf.pc + leaf.side
+        if leaf.kind == 'exc':
+            r, m = core.check(base, timeout_ms=30000)
+            recs.append(q(name + ':noexc', r, detail=repr(leaf.value)))
+            if r == 'sat':
+                recs.append(cex('C06:failed:raise', f'unexpected exception type {leaf.value!r}', pl, name=name + ':noexc'))
+            continue
+        fr, before, raised, ext, later = leaf.value
+        if raised is None:
+            recs.append(q(name + ':rejected', 'sat', detail='an invalid signal description was accepted'))
+            recs.append(cex('C06:failed:accepted', f'{fault}: the injection did not raise', pl, name=name + ':rejected'))
+            continue
+        dis, bad, data_after = list(fr[0]), list(fr[1]), fr[2]
+        if data_after.shape == D.shape:
+            dis += [lift(data_after[idx]) != lift(D[idx]) for idx in np.ndindex(D.shape)]
+        else:
+            bad.append('data shape')
+        if len(ext) != T + 1:
+            bad.append(f'ts_ext has {len(ext)} entries')
+        if isinstance(later, Exception):
+            bad.append(f'a later, valid injection raises {type(later).__name__}: {later}')
+        r, m = core.check(base + [z3.Or(z3.BoolVal(bool(bad)), *dis)], timeout_ms=60000)
+        recs.append(q(name, r, raised=type(raised).__name__, detail='; '.join(bad)))
+        if li == 0 and not isinstance(later, Exception):
+            recs.append(q(name + ':twin', core.check(base + [lift(later[0, 0]) != 0], timeout_ms=30000)[0], expect='sat'))
+        if r == 'sat':
+            recs.append(cex('C06:failed:state', f"after an injection that raised ({fault}: {type(raised).__name__}) the frame is not as it was: {bad[:2]}", pl, name=name))
+    r, _ = core.check(pre + [z3.Not(z3.Or(*conds))] if conds else pre, timeout_ms=30000)
+    recs.append(q(f"{tag}:split-complete", r))
+    return recs
+
+
+def replay_failed(p):
+    import setigen as stg
+    T, Fc, smear, fault = p['T'], p['Fc'], p['smear'], p['fault']
+    fr = stg.Frame(fchans=Fc, tchans=T, df=2.0, dt=4.0, fch1=4096.0, ascending=p['asc'], seed=3)
+    fr.add_noise(4.0)
+    D, ts0, fs0 = fr.data.copy(), fr.ts.copy(), fr.fs.copy()
+    st0, nm0, meta0 = str(fr.rng.bit_generator.state), (fr.noise_mean, fr.noise_std), dict(fr.metadata)
+
+    def boom(*a):
+        raise UserError(fault)
+    kw = dict(path=stg.constant_path(4098.0, 0.05), t_profile=stg.constant_t_profile(1.0), f_profile=stg.box_f_profile(4.0), bp_profile=stg.constant_bp_profile(1.0),
+              doppler_smearing=smear, smearing_subsamples=2)
+    good = dict(kw)
+    kw.update({'path_fn': dict(path=boom), 'tprofile_fn': dict(t_profile=boom), 'fprofile_fn': dict(f_profile=boom), 'bp_fn': dict(bp_profile=boom),
+               'path_len': dict(path=np.full(T if smear else T + 1, 4098.0)), 'path_type': dict(path='not a path'),
+               'tprofile_len': dict(t_profile=np.ones(T + 1)), 'bp_len': dict(bp_profile=np.ones(Fc + 1))}[fault])
+    try:
+        fr.add_signal(**kw)
+        return True, f"{fault}: the injection did not raise"
+    except (UserError, ValueError, TypeError, IndexError) as e:
+        exc = e
+    msgs = []
+    if fr.ts.shape != ts0.shape or not np.array_equal(fr.ts, ts0) or not np.array_equal(fr.fs, fs0) or len(fr.ts_ext) != T + 1:
+        msgs.append(f"time axis now has {len(fr.ts)} entries (ts_ext {len(fr.ts_ext)}) for {T} integrations")
+    if fr.data.shape != D.shape or not np.array_equal(fr.data, D):
+        msgs.append("data changed")
+    if str(fr.rng.bit_generator.state) != st0 or (fr.noise_mean, fr.noise_std) != nm0 or dict(fr.metadata) != meta0 or fr.shape != (T, Fc):
+        msgs.append("generator state / noise estimates / metadata / shape changed")
+    try:
+        fr.add_signal(**good)
+    except Exception as e:
+        msgs.append(f"a later, valid injection raises {type(e).__name__}: {e}")
+    return bool(msgs), f"after an injection that raised {type(exc).__name__} ({fault}): " + ('; '.join(msgs) or 'frame unchanged')
+
+
 # ---------------------------------------------------------------- superposition
 def job_superpose(T, Fc, asc, smear, bound, tier):
     """two different signals injected in both orders on the same prior content"""
@@ -320,6 +454,9 @@ def job_superpose(T, Fc, asc, smear, bound, tier):
     return recs
 
 
+REPLAYS = {'add_signal': inject.replay_add_signal, 'superpose': replay_superpose, 'int_data': replay_int_data, 'failed': replay_failed}
+
+
 def main():
     ck = Check('C06', 'Injection is additive, confined to its bounding range, preserves frame state')
     ck.functions = ['setigen.frame.Frame.__init__', 'Frame.add_signal', 'Frame.get_index']
@@ -342,6 +479,9 @@ def main():
             for bound in (False, True):
                 jobs.append(('job_superpose', (2, 3, asc, smear, bound, ck.tier)))
                 jobs.append(('job_int_data', (2, 3, asc, bound, smear)))
+    for smear in (False, True):
+        for fault in FAULTS:
+            jobs.append(('job_failed_injection', (2, 3, fault != 'bp_fn', smear, fault)))
     ck.run_jobs('props.C06', jobs, timeout_s=1500 if ck.thorough else 600)
     ck.finish()
 
